@@ -162,7 +162,41 @@ class GwWorld:
         self.faults = Counter()
         self.writes: list[dict] = []
         self.on_write_enter = None
-        self.transport = SimTransport(self)
+        self.link = cfg.get("link", "sim")
+        self.peer = None
+        if self.link == "tcp":
+            # full stack: the real TCPTransport and asyncio streams on the simulated byte link
+            from aiomysensors.transport.tcp import TCPTransport
+
+            from .streams import SimPeer, install_network
+
+            self.peer = SimPeer(self)
+            install_network(self, self.peer)
+            self.transport = TCPTransport("gw.sim", 5003)
+            t = self.loop.create_task(self.transport.connect())
+            self.loop.run_until_idle(10)
+            if not t.done() or t.exception() is not None:
+                raise RuntimeError("simulated TCP connect failed in a fault-free setup")
+            self._rx_mark = 0
+            peer = self.peer
+            orig_on_write = peer.on_write
+
+            def on_write(data, _orig=orig_on_write):
+                r = _orig(data)
+                # every write() of the transport carries exactly one encoded line
+                for raw in data.split(b"\n")[:-1]:
+                    rec = {"line": raw.decode("utf-8", "replace") + "\n", "ok": True, "cat": "?",
+                           "seq_start": None, "seq_end": None}
+                    rec["cat"] = write_category(rec["line"])
+                    self.writes.append(rec)
+                    rec["seq_start"] = rec["seq_end"] = self.log("transport", "write", len(self.writes) - 1, rec["line"])
+                    if self.on_write_enter is not None:
+                        self.on_write_enter(rec)
+                return r
+
+            peer.on_write = on_write
+        else:
+            self.transport = SimTransport(self)
         self.gateway = Gateway(self.transport, Config(metric=cfg.get("metric", True)))
         if cfg.get("pin"):
             self.gateway.protocol_version = cfg["pin"]
@@ -218,7 +252,18 @@ class GwWorld:
     # -- operations --------------------------------------------------------
     def listen_step(self, line: str | None, horizon: float = 1000.0, read_err: str | None = None) -> Obs:
         """Deliver one line (or a read error) and ask for the next message."""
-        if read_err:
+        if self.link == "tcp":
+            if line is not None:
+                data = line.encode("utf-8")
+                if not data.endswith(b"\n"):
+                    data += b"\n"
+                cut = self.tapes.next("link.chunk", 0)
+                if cut and 0 < cut < len(data):
+                    self.peer.send(data[:cut])
+                    self.peer.send(data[cut:])
+                else:
+                    self.peer.send(data)
+        elif read_err:
             self.transport.inbox.put_nowait(("err", read_err))
         elif line is not None:
             self.transport.inbox.put_nowait(("line", line))
@@ -263,6 +308,27 @@ class GwWorld:
             task.cancel()
             self.loop.run_until_idle(0)
         return obs
+
+    def reenter(self) -> str | None:
+        """Leave and re-enter the gateway context on the SAME Gateway object (a caller's reconnect loop).
+        Returns the name of an exception class if either step raised."""
+        self.relisten()
+        self.log("app", "reenter")
+
+        async def cycle():
+            await self.gateway.__aexit__(None, None, None)
+            await self.gateway.__aenter__()
+
+        t = self.loop.create_task(cycle())
+        self.loop.run_until_idle(100)
+        self._wmark = len(self.writes)
+        if not t.done():
+            t.cancel()
+            self.loop.run_until_idle(0)
+            return "hang"
+        if t.exception() is not None:
+            return type(t.exception()).__name__
+        return None
 
     def close(self) -> None:
         _p14.time = self._old_time
